@@ -121,6 +121,7 @@ Inductive action :=
 | AAlgKeys (alg : string)                 (* KeySet.algorithm_keys.get(alg) *)
 | AOpReg (op : string)                    (* operation_registry[op].private *)
 | AJwsAlg (alg : string)                  (* registry.algorithms / recommended / the singleton's key_type *)
+| AJweAlg (alg enc : string)              (* JWERegistry.algorithms["alg"/"enc"], recommended, the singletons' attributes *)
 | ADraw.                                  (* one draw from the shared random source *)
 
 Inductive obs :=
@@ -132,6 +133,7 @@ Inductive obs :=
 | OStrs (o : option (list string))
 | OOp (o : option (option bool))
 | OAlg (o : option (string * bool))       (* key_type of the singleton, is it recommended *)
+| OJwe (a : option (string * list string)) (areco : bool) (e : bool) (ereco : bool)
 | ODrawn (idx : N)
 | OIter (r : res (option str)).
 
@@ -168,6 +170,12 @@ Definition sem (im : imm) (a : action) (w : world) : world * obs :=
   | AJwsAlg alg =>
       (w, OAlg (option_map (fun r => (ja_key_type r, smem alg (st_jws_reco (w_static w))))
                            (find_jws (st_jws_algs (w_static w)) alg)))
+  | AJweAlg alg enc =>
+      (w, OJwe (option_map (fun r => (ea_family r, ea_key_types r))
+                           (find (fun r => String.eqb (ea_name r) alg) (st_jwe_algs (w_static w))))
+               (smem alg (st_jwe_reco (w_static w)))
+               (existsb (fun r => String.eqb (ee_name r) enc) (st_jwe_encs (w_static w)))
+               (smem enc (st_jwe_reco (w_static w))))
   | ADraw =>
       ({| w_keys := w_keys w; w_sets := w_sets w; w_rng := w_rng w + 1; w_static := w_static w |},
        ODrawn (w_rng w))
@@ -510,6 +518,51 @@ Section Programs.
              | Ok kt => ktype_check k kt (pbindr (get_op_key k "verify") (fun _ => Ret (fin (snd kh))))
              end))).
 
+  (* jwe.encrypt_compact / decrypt_compact for direct encryption and AES key wrapping, up to
+     the primitives: guess_key, check_use("enc"), the registry / singleton reads, the CEK and
+     IV draws of a producer, check_key_type, get_op_key *)
+  Definition allowed_ok (name : string) (allowed : option (list string)) (reco : bool) : bool :=
+    match allowed with Some (x :: l) => smem name (x :: l) | _ => reco end.
+  Definition jwe_reg (alg enc : string) (allowed : option (list string)) (o : obs) : res (string * list string) :=
+    match o with
+    | OJwe a ar e er =>
+        if e && allowed_ok enc allowed er then
+          match a with
+          | Some fk => if allowed_ok alg allowed ar then Ok fk else Err (EJose UnsupportedAlgorithmError)
+          | None => Err (EJose UnsupportedAlgorithmError)
+          end
+        else Err (EJose UnsupportedAlgorithmError)
+    | _ => Err EOracleMiss
+    end.
+  Definition draw_then {A} (l : string) (doit : bool) (p : prog A) : prog A :=
+    if doit then Act l ADraw (fun _ => p) else p.
+
+  Definition jwe_op (encrypt : bool) (kr : keyref) (kid : option str) (alg enc : string)
+             (allowed : option (list string)) (crypto : option jcls) : prog (res pv) :=
+    let fin (v : pv) : res pv := match crypto with None => Ok v | Some c => Err (EJose c) end in
+    pbindr (guess_key kr kid encrypt alg) (fun kh =>
+      let k := fst kh in
+      pbindr (getf k (asc "use")) (fun u =>
+        let cont :=
+          Act "jwe.reg" (AJweAlg alg enc) (fun o =>
+            match jwe_reg alg enc allowed o with
+            | Err e => Ret (Err e)
+            | Ok (fam, kts) =>
+              let ktype (p : prog (res pv)) : prog (res pv) :=
+                if smem (ki_kty (kim im k)) kts then p else Ret (Err (EJose InvalidKeyTypeError)) in
+              if String.eqb fam "dir" then
+                ktype (draw_then "jwe.iv" encrypt (Ret (fin (snd kh))))
+              else if String.eqb fam "AESKW" then
+                draw_then "jwe.cek" encrypt
+                  (ktype (pbindr (get_op_key k (if encrypt then "wrapKey" else "unwrapKey")) (fun _ =>
+                     draw_then "jwe.iv" encrypt (Ret (fin (snd kh))))))
+              else Ret (Err EOracleMiss)
+            end) in
+        match py_truthy_str u with
+        | Some s => if str_eqb s (asc "enc") then cont else Ret (Err (EJose UnsupportedKeyUseError))
+        | None => cont
+        end)).
+
   (* ---------- API calls ---------- *)
   Inductive call :=
   | CAsDict (k : nat) (private : option bool)
@@ -521,6 +574,8 @@ Section Programs.
   | CPick (s : nat) (alg : string)
   | CSetAsDict (s : nat) (private : option bool)
   | CJws (sign : bool) (kr : keyref) (kid : option str) (alg : string) (allowed : option (list string))
+         (crypto : option jcls)
+  | CJwe (encrypt : bool) (kr : keyref) (kid : option str) (alg enc : string) (allowed : option (list string))
          (crypto : option jcls).
 
   Definition compile (c : call) : prog (res pv) :=
@@ -535,6 +590,7 @@ Section Programs.
                        (fun o => Ret (Ok (match o with Some k => PInt (Z.of_nat k) | None => PNone end)))
     | CSetAsDict s p => set_as_dict s p
     | CJws sg kr kid alg allowed cr => jws_op sg kr kid alg allowed cr
+    | CJwe en kr kid alg enc allowed cr => jwe_op en kr kid alg enc allowed cr
     end.
 End Programs.
 
